@@ -389,3 +389,96 @@ where
 {
     std::thread::Builder::new().stack_size(1 << 30).spawn(f).expect("spawn").join().expect("worker thread panicked outside catch_unwind")
 }
+
+struct AssertSend<X>(X);
+// SAFETY: used only by `on_fresh_thread`, where the spawning thread blocks in `join()` for the
+// whole life of the child: values move to the child and back, they are never accessed from two
+// threads at once. (The harness's terms use `Rc`; programs handed to the child are deep copies
+// or are not touched by the parent until the child has finished.)
+unsafe impl<X> Send for AssertSend<X> {}
+
+/// Run `f` on a fresh thread (fresh SipHash keys for every HashMap/HashSet created there, its own
+/// thread-locals) with a big stack, and wait for it.
+pub fn on_fresh_thread<F, X>(f: F) -> X
+where
+    F: FnOnce() -> X,
+    X: 'static,
+    F: 'static,
+{
+    let wrapped = AssertSend(f);
+    let handle = std::thread::Builder::new()
+        .stack_size(1 << 30)
+        .spawn(move || {
+            let w = wrapped;
+            AssertSend((w.0)())
+        })
+        .expect("spawn");
+    handle.join().expect("monitor thread panicked outside catch_unwind").0
+}
+
+/// What one run on a fresh thread observed, reduced to plain data.
+#[derive(Clone, Debug, Default)]
+pub struct SeedRun {
+    pub answers: Vec<Ans>,
+    pub ended: bool,
+    pub budget_exceeded: bool,
+    pub fused_violation: bool,
+    pub panic: Option<PanicInfo>,
+    pub steps: u64,
+}
+
+/// Run the same program `n` times, each on a fresh thread (different hash seeds).
+pub fn run_query_seeds(prog: &Program, cfg: &RunCfg, n: usize) -> Vec<SeedRun> {
+    let mut out = vec![];
+    for _ in 0..n {
+        let p = prog.clone();
+        let c = cfg.clone();
+        let r = on_fresh_thread(move || {
+            let r = run_query(&p, &c);
+            SeedRun { answers: r.answers, ended: r.ended, budget_exceeded: r.budget_exceeded, fused_violation: r.fused_violation, panic: r.panic, steps: r.steps }
+        });
+        out.push(r);
+    }
+    out
+}
+
+/// State-level run on a fresh thread: final-state answers, wake-up order signatures (M-user),
+/// and the M-state invariant violations found at probes and final states.
+#[derive(Clone, Debug, Default)]
+pub struct SeedStates {
+    pub answers: Vec<Ans>,
+    pub wake_sigs: Vec<u64>,
+    pub invariant_violations: Vec<(String, String)>,
+    pub probe_states: u64,
+    pub final_states: u64,
+    pub ended: bool,
+    pub budget_exceeded: bool,
+    pub panic: Option<PanicInfo>,
+}
+
+pub fn run_states_seed(prog: &Program, cfg: &RunCfg, with_reify: bool, invariants: fn(&St) -> Vec<(String, String)>) -> SeedStates {
+    let p = prog.clone();
+    let c = cfg.clone();
+    on_fresh_thread(move || {
+        let st = run_states(&p, &c, with_reify);
+        let mut o = SeedStates::default();
+        o.ended = st.ended;
+        o.budget_exceeded = st.budget_exceeded;
+        o.panic = st.panic.clone();
+        for rec in st.probes.iter() {
+            o.probe_states += 1;
+            for (sig, msg) in invariants(&rec.state) {
+                o.invariant_violations.push((sig, format!("at probe {}: {}", rec.id, msg)));
+            }
+        }
+        for f in st.finals.iter() {
+            o.final_states += 1;
+            o.wake_sigs.push(f.state.user_state.wake_sig);
+            o.answers.push(f.answer.clone());
+            for (sig, msg) in invariants(&f.state) {
+                o.invariant_violations.push((sig, format!("at final state: {}", msg)));
+            }
+        }
+        o
+    })
+}
